@@ -25,12 +25,23 @@ def run_property(prop, tier, quiet=False):
     try:
         mod.run(ctx)
         ctx.finish_floors()
+    except core.DefectFound as e:
+        # the interpretation met a definite defect (uninitialised read): a verdict, reported like any rule instance; the
+        # rules that would have run after it did not (the first defect of this kind ends the run)
+        ctx.rule("UNINIT-READ", "no slot of an array allocated with np.empty is read before a store reaches it (met while interpreting a function for another rule)", 0).fail(
+            "%s::%s" % (e.file.rsplit("/", 1)[-1], e.function), e.file, e.function, e.line, e.construct, e.message)
     except core.AnalysisError as e:
-        print("ANALYSIS-ERROR property=%s %s" % (prop, e))
-        core.write_evidence(
-            ctx, mod.LEVEL, mod.EXPLANATION, mod.ASSUMPTIONS, 0, [], "analysis-error: %s" % e, _lk(mod, ctx)
-        )
-        return 2
+        # the analysis could not be completed.  Violations that rules had already decided stand (a rule's verdict does
+        # not depend on what a later rule can or cannot analyse); without any, the run is "cannot analyse" (exit 2).
+        known_ = core.load_known()
+        if not [r for r in ctx.reports if core.match_known(r, known_) is None]:
+            print("ANALYSIS-ERROR property=%s %s" % (prop, e))
+            core.write_evidence(
+                ctx, mod.LEVEL, mod.EXPLANATION, mod.ASSUMPTIONS, 0, [], "analysis-error: %s" % e, _lk(mod, ctx)
+            )
+            return 2
+        print("  note: the analysis stopped early (%s); the violations decided before that are reported" % str(e)[:200])
+        ctx.notes.append("analysis stopped early: %s" % e)
     except Exception:
         print("ANALYSIS-ERROR property=%s internal error" % prop)
         traceback.print_exc()
@@ -63,6 +74,11 @@ def run_property(prop, tier, quiet=False):
         ctx.sample({"generated_mutant_sample": gen})
         print("  generated mutants in the anchored ranges: %d, sampled %d: %d reported, %d analysis errors, %d unreported (mostly behaviour-preserving, DESIGN 10.3)" % (
             gen["generated_in_anchor_ranges"], gen["sampled"], gen["reported"], gen["analysis_error"], len(gen["unreported"])))
+        eq = selftest.equivalent_sample(prop)
+        ctx.sample({"generated_equivalent_sample": eq})
+        print("  generated behaviour-preserving rewrites in the anchored ranges: %d, sampled %d: %d silent, %d false alarms, %d cannot-analyse (DESIGN 10.4)%s" % (
+            eq["generated_in_anchor_ranges"], eq["sampled"], eq["silent"], len(eq["false_alarms"]), len(eq["cannot_analyse"]),
+            ("; FALSE ALARMS %s" % eq["false_alarms"][:4]) if eq["false_alarms"] else ""))
     status = "violated" if unlisted else "holds"
     core.write_evidence(ctx, mod.LEVEL, mod.EXPLANATION, mod.ASSUMPTIONS, len(unlisted), hits, status, _lk(mod, ctx))
     n_inst = sum(len(r.instances) for r in ctx.rules.values())
